@@ -3,7 +3,7 @@
 package ocsp
 
 //@ type OCSPRevocationChecker
-//@   immutable: ocspConfig, logger
+//@   immutable: ocspConfig, logger, cache
 
 //@ spec func ocspOK(c ref) bool = c != nil && c.ocspConfig != nil && c.logger != nil && certsNonNil(c.ocspConfig.TrustedResponderCerts)
 //@ spec func rdnOfBytes(raw string) string uninterpreted
@@ -66,6 +66,7 @@ package ocsp
 //@   requires c != nil
 //@   assigns M.http.Header
 //@ func OCSPRevocationChecker.Provision
+//@   constructor
 //@   props C19
 //@   requires c != nil
 //@   assigns *c
